@@ -26,7 +26,7 @@ enum Second {
     InitRejected(String),
     BadConfig(String),
     SolveError(String),
-    Done { seeded: Vec<f64>, returned: Vec<f64>, order: i8, seeded_routes: usize, seeded_unassigned: usize, doc: String },
+    Done { seeded: Vec<f64>, returned: Vec<f64>, order: i8, raw_order: i8, seeded_routes: usize, seeded_unassigned: usize, doc: String },
 }
 
 fn tuning(tier: Tier) -> W1Tuning {
@@ -85,6 +85,14 @@ fn second_run(case: &RestartCase, stored: &str, via_solver: bool) -> crate::kern
         let seeded_ctx = InsertionContext::new_from_solution(problem.clone(), (solution, None), environment.clone());
         let reference = seeded_ctx.deep_copy();
         let seeded: Vec<f64> = problem.goal.fitness(&reference).collect();
+        if std::env::var_os("VSIM_RESTART_DEBUG").is_some() {
+            let mut again = reference.deep_copy();
+            problem.goal.accept_solution_state(&mut again.solution);
+            let f2: Vec<f64> = problem.goal.fitness(&again).collect();
+            let (rq, ig, un) = (reference.solution.required.len(), reference.solution.ignored.len(), reference.solution.unassigned.len());
+            let (rq2, ig2, un2) = (again.solution.required.len(), again.solution.ignored.len(), again.solution.unassigned.len());
+            sys::monitor(|| crate::say!("SEEDED {:?} (required {} ignored {} unassigned {}) after another accept_solution_state {:?} (required {} ignored {} unassigned {})", seeded, rq, ig, un, f2, rq2, ig2, un2));
+        }
         let config = match vrp_cli::extensions::solve::config::read_config(BufReader::new(config_text.as_bytes())) {
             Ok(c) => c,
             Err(e) => return fail(Second::BadConfig, format!("{e}")),
@@ -109,12 +117,29 @@ fn second_run(case: &RestartCase, stored: &str, via_solver: bool) -> crate::kern
             };
             drop(solution);
             drop(reference);
-            return sys::monitor(|| Second::Done { seeded: vec![], returned: vec![], order: 0, seeded_routes: 0, seeded_unassigned: 0, doc: doc.as_str().to_string() });
+            return sys::monitor(|| Second::Done { seeded: vec![], returned: vec![], order: 0, raw_order: 0, seeded_routes: 0, seeded_unassigned: 0, doc: doc.as_str().to_string() });
         }
+        // the post-processing steps of the solver (departure advance, reserved time re-scheduling, unassignment
+        // reasons, cluster expansion) are taken out of the configuration and applied here, exactly as the simulator
+        // does after its strategy returned, so that the best individual of the final population is also seen as the
+        // population ranked it
+        let mut post = Vec::new();
+        let mut raw_order = Ordering::Equal;
         let result = builder
             .and_then(|builder| builder.build())
+            .map(|mut config| {
+                post = std::mem::take(&mut config.processing.solution);
+                config
+            })
             .and_then(vrp_core::rosomaxa::evolution::EvolutionSimulator::new)
             .and_then(|s| s.run())
+            .map(|(solutions, metrics)| {
+                if let Some(first) = solutions.first() {
+                    raw_order = problem.goal.total_order(first, &reference);
+                }
+                let solutions: Vec<InsertionContext> = solutions.into_iter().map(|solution| post.iter().fold(solution, |s, hook| hook.post_process(s))).collect();
+                (solutions, metrics)
+            })
             .and_then(|(mut solutions, metrics)| {
                 if debug {
                     // triage aid: the whole final population, best first
@@ -142,15 +167,16 @@ fn second_run(case: &RestartCase, stored: &str, via_solver: bool) -> crate::kern
             Ok(()) => String::from_utf8(writer.into_inner().unwrap_or_default()).unwrap_or_default(),
             Err(e) => return fail(Second::SolveError, format!("cannot write: {e}")),
         };
-        let order = match order {
-            Ordering::Less => -1,
+        let as_int = |order: Ordering| match order {
+            Ordering::Less => -1i8,
             Ordering::Equal => 0,
             Ordering::Greater => 1,
         };
+        let (order, raw_order) = (as_int(order), as_int(raw_order));
         drop(solution);
         let (seeded_routes, seeded_unassigned) = (reference.solution.routes.len(), reference.solution.unassigned.len());
         drop(reference);
-        sys::monitor(|| Second::Done { seeded: seeded.to_vec(), returned: returned.to_vec(), order, seeded_routes, seeded_unassigned, doc: doc.as_str().to_string() })
+        sys::monitor(|| Second::Done { seeded: seeded.to_vec(), returned: returned.to_vec(), order, raw_order, seeded_routes, seeded_unassigned, doc: doc.as_str().to_string() })
     })
 }
 
@@ -192,7 +218,7 @@ fn record(case: &RestartCase, seed: u64) -> CaseRecord {
             rec.count(&format!("restart.init_not_readable.{}", class.replace(['.', '\'', '"'], "")), 1);
         }
         Ok(Second::SolveError(e)) => push(&mut rec, "restart-solve-error", population, format!("the seeded solve returned an error: {e}")),
-        Ok(Second::Done { seeded, returned, order, seeded_routes, seeded_unassigned, doc }) => {
+        Ok(Second::Done { seeded, returned, order, raw_order, seeded_routes, seeded_unassigned, doc }) => {
             rec.count("restart.second_runs_done", 1);
             if std::env::var_os("VSIM_DUMP").is_some() {
                 crate::say!("{}", serde_json::to_string(&json!({"case": case.first.to_json(), "solution": serde_json::from_str::<Value>(&stored).unwrap_or(Value::Null), "second": serde_json::from_str::<Value>(&doc).unwrap_or(Value::Null), "second_config": case.second_config, "checker": format!("seeded {:?} returned {:?} order {}", seeded, returned, order)})).unwrap());
@@ -202,12 +228,19 @@ fn record(case: &RestartCase, seed: u64) -> CaseRecord {
                 0 => "restart.returned_equal",
                 _ => "restart.returned_WORSE",
             }, 1);
-            if order > 0 {
-                // objectives whose value depends on when a tour departs: the departure time post-processing
-                // (AdvanceDeparture) shifts departures of the returned individual without asking the objective
+            if raw_order > 0 {
+                // the population itself ranks an individual first which is worse than the one it was given
+                rec.count("restart.best_of_population_WORSE", 1);
+                push(&mut rec, "population-lost-seeded", population.clone(), format!("the best individual of the final population is worse under the problem's objective than the initial solution the solve was seeded with (fitness {:?}, {} tours, {} unassigned); returned after post-processing: {:?}", seeded, seeded_routes, seeded_unassigned, returned));
+            }
+            if order > 0 && raw_order <= 0 {
+                // the population kept its best; the solver's post-processing (AdvanceDeparture shifts departures of the
+                // returned individual without asking the objective) made the returned individual worse than the seed
+                rec.count("restart.worse_only_after_post_processing", 1);
                 let objectives = case.first.problem.get("objectives").map(|o| o.to_string()).unwrap_or_default();
                 let sensitive = ["minimize-arrival-time", "fast-service", "balance-duration"].iter().any(|t| objectives.contains(t));
-                let population = if sensitive { format!("{population}|departure-sensitive-objective") } else { population.clone() };
+                rec.count(if sensitive { "restart.worse_after_post_processing.departure_time_objective" } else { "restart.worse_after_post_processing.other_objective" }, 1);
+                let population = format!("{population}|worse-only-after-post-processing");
                 push(&mut rec, "restart-worse", population, format!("a solve seeded with an individual of fitness {:?} ({} tours, {} unassigned) returned fitness {:?}; objectives {}", seeded, seeded_routes, seeded_unassigned, returned, case.first.problem.get("objectives").map(|o| o.to_string()).unwrap_or_else(|| "default".into())));
             }
             // the returned document itself is judged by the document oracles (issues keep their own property ids)
@@ -307,3 +340,4 @@ impl Scenario for RestartScenario {
         }
     }
 }
+
